@@ -37,19 +37,39 @@ theorem walEnsure_rows (wal : List (Nat × List Ev)) (id i : Nat) :
     · simp [List.filter, h]
     · simp [List.filter, h]
 
-/-- After `crash; restart` a scan produces every row that was in a segment directory or in a
-WAL file at the moment of the crash. -/
+/-- Directory `d` is served after a restart: the index names it, or no index file exists. -/
+def Served (s : Shard) (d : Nat) : Prop := s.indexExists = true → ∃ ent ∈ s.index, ent.1 = d
+
+theorem mem_published {s : Shard} {dirs : List Nat} {d : Nat} :
+    d ∈ published s dirs ↔ d ∈ dirs ∧ Served s d := by
+  unfold published Served
+  by_cases h : s.indexExists = true
+  · simp only [h, if_true, List.mem_filter, List.any_eq_true, beq_iff_eq, forall_const]
+  · simp [h]
+
+theorem published_sub {s : Shard} {dirs : List Nat} {d : Nat} (h : d ∈ published s dirs) : d ∈ dirs :=
+  (mem_published.mp h).1
+
+/-- After `crash; restart` a scan produces every row that was in a WAL file, or in a segment
+directory that the index names (every directory while no index file exists), at the moment of the
+crash. -/
 theorem restart_recovers (s : Shard) (e : Ev)
-    (h : (∃ p ∈ s.segs, e ∈ p.2) ∨ (∃ f ∈ s.wal, e ∈ f.2)) :
+    (h : (∃ p ∈ s.segs, e ∈ p.2 ∧ Served s p.1) ∨ (∃ f ∈ s.wal, e ∈ f.2)) :
     e ∈ scanRows (restart (crash s)) := by
   have hsegs : (restart (crash s)).segs = s.segs := by simp [restart, crash]
-  rcases h with ⟨p, hp, he⟩ | ⟨f, hf, he⟩
-  · -- in a segment directory: the directory name is in the live list built by the restart
+  rcases h with ⟨p, hp, he, hserved⟩ | ⟨f, hf, he⟩
+  · -- in a served segment directory: the restart puts it in the live list
     apply cover_scan
     refine Or.inr (Or.inr ⟨p.1, ?_, ?_⟩)
-    · simp only [restart, crash]
-      rw [mem_sortNat, List.mem_eraseDups, List.mem_map]
-      exact ⟨p, hp, rfl⟩
+    · have : (restart (crash s)).live
+          = published (crash s) (sortNat (((crash s).segs.map (·.1)).eraseDups)) := by
+        simp [restart]
+      rw [this, mem_published]
+      refine ⟨?_, ?_⟩
+      · simp only [crash]
+        rw [mem_sortNat, List.mem_eraseDups, List.mem_map]
+        exact ⟨p, hp, rfl⟩
+      · simpa [Served, crash] using hserved
     · rw [mem_segRows, hsegs]; exact ⟨p, hp, rfl, he⟩
   · -- in a WAL file: replayed into the memtable
     apply cover_scan
